@@ -53,6 +53,21 @@ def Token.qname : Token → Option (StrSpan × StrSpan)
   | .elementEnd (.close pfx loc) _ => some (pfx, loc)
   | _ => none
 
+theorem Token.qname_elim {t : Token} {p l : StrSpan} (hq : t.qname = some (p, l)) :
+    (∃ v sp, t = .attribute p l v sp) ∨ (∃ sp, t = .elementStart p l sp) ∨
+      (∃ sp, t = .elementEnd (.close p l) sp) := by
+  cases t with
+  | elementEnd e sp =>
+    cases e <;> simp only [Token.qname, Option.some.injEq, Prod.mk.injEq, reduceCtorEq] at hq
+    obtain ⟨rfl, rfl⟩ := hq; exact .inr (.inr ⟨sp, rfl⟩)
+  | «attribute» pfx loc value sp =>
+    simp only [Token.qname, Option.some.injEq, Prod.mk.injEq] at hq; obtain ⟨rfl, rfl⟩ := hq
+    exact .inl ⟨value, sp, rfl⟩
+  | elementStart pfx loc sp =>
+    simp only [Token.qname, Option.some.injEq, Prod.mk.injEq] at hq; obtain ⟨rfl, rfl⟩ := hq
+    exact .inr (.inl ⟨sp, rfl⟩)
+  | _ => simp [Token.qname] at hq
+
 theorem Token.prefixOk_of_qname_none {t : Token} (h : t.qname = none) : t.prefixOk = true := by
   cases t with
   | elementEnd e sp => cases e <;> simp_all [Token.qname, Token.prefixOk]
